@@ -9,9 +9,11 @@
     fuel_irrelevant_impl fuel_irrelevant_doc impl_eq_doc_partial
     if_false_removes if_true_transparent for_eq_unrolled choose_first_match_only
     attr_form_eq_elem_form_partial replace_eq_content_strip_partial
+    extract_flat_eq_tree construction_pipeline_eq_compile
 -/
 import Genshi.Lemmas.TmplSimMain
 import Genshi.Lemmas.TmplEquiv
+import Genshi.Lemmas.TmplExtract
 namespace Genshi.Props.C04
 open Genshi Genshi.Tmpl
 
@@ -30,6 +32,21 @@ theorem text_directives_are_markup_directives :
 /-- `get_directive_index` is the position in the list (what `implIdx` assumes). -/
 theorem index_is_position :
     Gen.Directives.markupIndices = List.range Gen.Directives.markupDirectives.length := by decide
+
+/-! ### extraction: the one-pass algorithm of `_extract_directives` -/
+
+/-- `_extract_directives` walks the flat parsed stream once, with a depth counter and the
+    dictionary `dirmap` keyed by `(depth, tag)`, and cuts the events of an element with
+    directives out of the output list when its END arrives.  For the parsed stream of every
+    template this yields exactly the nesting of the template tree: every SUB holds the events
+    of its own element (minus the element itself for a directive element), directives sorted. -/
+theorem extract_flat_eq_tree (ns : List TNode) : extractFlat (toStreams ns) = extractTrees ns :=
+  extractFlat_eq_tree ns
+
+/-- … and `Template._prepare` on that stream gives the prepared stream `compileNodes` about
+    which all run-time theorems below speak. -/
+theorem construction_pipeline_eq_compile (ns : List TNode) : compileFlat ns = compileNodes ns :=
+  compileFlat_eq_compile ns
 
 /-! ### scoping: frames and choice stack -/
 
